@@ -23,6 +23,9 @@ import (
 
 	"github.com/sirupsen/logrus"
 
+	"github.com/free5gc/chf/cdr/asn"
+	"github.com/free5gc/chf/cdr/cdrType"
+
 	chf_context "github.com/free5gc/chf/internal/context"
 	"github.com/free5gc/chf/verifh/stack"
 )
@@ -54,6 +57,79 @@ type ueState struct {
 	NRecords     int               `json:"nrecords"`
 	CdrKeys      []string          `json:"cdrKeys"`
 	RecordSeq    []int64           `json:"recordSeq"`
+	Records      []recSummary      `json:"records"`
+	CdrIndex     map[string]int    `json:"cdrIndex"` // session reference -> index of its record in Records (-1: not there)
+}
+
+// recSummary: the members of one CHF record that the properties speak about, read
+// from the in-memory record (ChfUe.Records), plus the size of its BER encoding.
+type recSummary struct {
+	SessionId  string    `json:"sessionId"`
+	Subscriber string    `json:"subscriber"`
+	SubType    int64     `json:"subType"`
+	ChargingId int64     `json:"chargingId"`
+	Consumer   string    `json:"consumer"`
+	Cause      int64     `json:"cause"`
+	Lrsn       int64     `json:"lrsn"`
+	RecSeq     int64     `json:"recSeq"`
+	OpenTs     string    `json:"openTs"`
+	Usages     [][]int64 `json:"usages"` // [rg, total, uplink, downlink, serviceSpecificUnits, localSequenceNumber]
+	BerLen     int       `json:"berLen"`
+}
+
+func summarize(r *cdrType.CHFRecord) (s recSummary) {
+	s = recSummary{Lrsn: -1, RecSeq: -1, ChargingId: -1, SubType: -1, Usages: [][]int64{}, BerLen: -1}
+	defer func() { _ = recover() }()
+	if r == nil || r.ChargingFunctionRecord == nil {
+		return s
+	}
+	c := r.ChargingFunctionRecord
+	if c.ChargingSessionIdentifier != nil {
+		s.SessionId = string(c.ChargingSessionIdentifier.Value)
+	}
+	if c.SubscriberIdentifier != nil {
+		s.Subscriber = string(c.SubscriberIdentifier.SubscriptionIDData)
+		s.SubType = int64(c.SubscriberIdentifier.SubscriptionIDType.Value)
+	}
+	if c.ChargingID != nil {
+		s.ChargingId = c.ChargingID.Value
+	}
+	if c.NFunctionConsumerInformation.NetworkFunctionName != nil {
+		s.Consumer = string(c.NFunctionConsumerInformation.NetworkFunctionName.Value)
+	}
+	s.Cause = int64(c.CauseForRecClosing.Value)
+	if c.LocalRecordSequenceNumber != nil {
+		s.Lrsn = c.LocalRecordSequenceNumber.Value
+	}
+	if c.RecordSequenceNumber != nil {
+		s.RecSeq = *c.RecordSequenceNumber
+	}
+	s.OpenTs = hex.EncodeToString(c.RecordOpeningTime.Value)
+	d := func(p *cdrType.DataVolumeOctets) int64 {
+		if p == nil {
+			return -1
+		}
+		return p.Value
+	}
+	for _, m := range c.ListOfMultipleUnitUsage {
+		for _, u := range m.UsedUnitContainers {
+			ssu, lsn := int64(-1), int64(-1)
+			if u.ServiceSpecificUnits != nil {
+				ssu = *u.ServiceSpecificUnits
+			}
+			if u.LocalSequenceNumber != nil {
+				lsn = u.LocalSequenceNumber.Value
+			}
+			s.Usages = append(s.Usages, []int64{m.RatingGroup.Value, d(u.DataTotalVolume), d(u.DataVolumeUplink), d(u.DataVolumeDownlink), ssu, lsn})
+		}
+		if len(m.UsedUnitContainers) == 0 {
+			s.Usages = append(s.Usages, []int64{m.RatingGroup.Value, -2, -2, -2, -2, -2})
+		}
+	}
+	if b, err := asn.BerMarshalWithParams(&r, "explicit,choice"); err == nil {
+		s.BerLen = len(b)
+	}
+	return s
 }
 
 type notif struct {
@@ -123,6 +199,8 @@ func snapshotUe(ue *chf_context.ChfUe) (st *ueState) {
 		RatingGroups: []int32{},
 		CdrKeys:      []string{},
 		RecordSeq:    []int64{},
+		Records:      []recSummary{},
+		CdrIndex:     map[string]int{},
 	}
 	defer func() { _ = recover() }()
 	for rg, v := range ue.ReservedQuota {
@@ -151,6 +229,17 @@ func snapshotUe(ue *chf_context.ChfUe) (st *ueState) {
 			seq = r.ChargingFunctionRecord.LocalRecordSequenceNumber.Value
 		}
 		st.RecordSeq = append(st.RecordSeq, seq)
+		st.Records = append(st.Records, summarize(r))
+	}
+	st.CdrIndex = map[string]int{}
+	for k, r := range ue.Cdr {
+		idx := -1
+		for i, q := range records {
+			if q == r {
+				idx = i
+			}
+		}
+		st.CdrIndex[k] = idx
 	}
 	return st
 }
